@@ -576,6 +576,10 @@ int process_patch(const Options& options)
             continue;
         }
 
+        // A file which is moved, copied or written somewhere else should have the permissions of the file it comes from.
+        if (permission_result.old_permissions == filesystem::perms::unknown && output_file != file_to_patch)
+            permission_result.old_permissions = filesystem::get_permissions(file_to_patch);
+
         File input_file;
         // NOTE: the file is only read from here, opening it for writing as well would needlessly fail for read-only files.
         input_file.open(file_to_patch, (mode & ~std::ios_base::out) | std::ios_base::in);
